@@ -26,6 +26,8 @@ HIER = {
     "TypeError": "Exception",
     "ValueError": "Exception",
     "UnicodeError": "ValueError",
+    "UnicodeDecodeError": "UnicodeError",
+    "UnicodeEncodeError": "UnicodeError",
     "JSONDecodeError": "ValueError",
     "json.JSONDecodeError": "ValueError",
     "AttributeError": "Exception",
@@ -90,6 +92,7 @@ class ExcFlow:
         self.cg = cg
         self.esc: Dict[str, Set[Esc]] = {}
         self.iterations = 0
+        self.skip_site = None  # optional predicate (function ref, call node) -> bool: edges not to follow
 
     # -- handlers enclosing a node inside fn ---------------------------------
     def _enclosing_handlers(self, node: ast.AST, fn: ast.AST) -> List[Set[str]]:
@@ -221,6 +224,53 @@ class ExcFlow:
                     cur |= new
                     changed = True
         self.iterations = it
+
+    # -- path-precise leak search for one exception type ---------------------------
+    def leaks(self, roots: Iterable[str], exc: str, origins: Dict[str, List[ast.AST]], dispatch: Optional[Dict[str, List[str]]] = None, stop_at: Iterable[str] = ()) -> List[dict]:
+        """Origin sites of `exc` (origins: function -> AST nodes that raise it, explicit or intrinsic) that are
+        reachable from a root along call sites none of which lies under a handler for `exc`, the origin itself
+        not being under one either.  Every reported leak carries the chain of call sites (a witness path).
+        Functions in stop_at are not entered (construction-time code reached through the call graph)."""
+        stop = set(stop_at)
+        pred: Dict[str, Tuple[Optional[str], Optional[ast.AST]]] = {}
+        work = []
+        for r in roots:
+            if r in self.cg.funcs and r not in pred:
+                pred[r] = (None, None)
+                work.append(r)
+        while work:
+            f = work.pop(0)
+            fn = self.cg.funcs[f]
+            edges = [(c, ts) for c, ts, how in self.cg.edges.get(f, [])]
+            if dispatch and f in dispatch:
+                edges.append((None, dispatch[f]))
+            for c, ts in edges:
+                if c is not None and self.skip_site is not None and self.skip_site(f, c):
+                    continue
+                hs = self._dispatch_handlers(f) if c is None else self._enclosing_handlers(c, fn)
+                if self._caught(exc, hs):
+                    continue
+                for t in ts:
+                    if t in self.cg.funcs and t not in pred and t not in stop:
+                        pred[t] = (f, c)
+                        work.append(t)
+        out = []
+        for f, sites in origins.items():
+            if f not in pred:
+                continue
+            fn = self.cg.funcs[f]
+            for s in sites:
+                if self._caught(exc, self._enclosing_handlers(s, fn)):
+                    continue
+                chain = []
+                cur: Optional[str] = f
+                while cur is not None:
+                    p, c = pred[cur]
+                    chain.append((cur, c))
+                    cur = p
+                chain.reverse()
+                out.append({"function": f, "site": s, "chain": chain})
+        return out
 
     def _dispatch_handlers(self, f: str) -> List[Set[str]]:
         """Handlers enclosing the `_parse_known_args` call inside parse_known_args (dispatch source)."""
